@@ -153,11 +153,34 @@ class C20(Check):
             elif k == "map":
                 visit(node["values"])
             elif k == "union":
-                has_enum = any(M.deref(b, table)["k"] == "enum" for b in node["branches"] if b["k"] != "ref" or b["name"] in table)
+                multi = sum(1 for b in node["branches"] if b["k"] != "null") >= 2
                 for b in node["branches"]:
-                    if has_enum and b.get("logical", {}).get("type") == "uuid":
-                        del b["logical"]
+                    if multi:
+                        strip_uuid(b, set())
                     visit(b)
+
+        def strip_uuid(node, seen):
+            if node.get("logical", {}).get("type") == "uuid":
+                del node["logical"]
+                self.excluded_uuid = getattr(self, "excluded_uuid", 0) + 1
+            k = node["k"]
+            if k == "ref":
+                if node["name"] not in seen and node["name"] in table:
+                    seen.add(node["name"])
+                    strip_uuid(table[node["name"]], seen)
+            elif k == "record":
+                if node["name"] in seen and node is not table.get(node["name"]):
+                    return
+                seen.add(node["name"])
+                for f in node["fields"]:
+                    strip_uuid(f["type"], seen)
+            elif k == "array":
+                strip_uuid(node["items"], seen)
+            elif k == "map":
+                strip_uuid(node["values"], seen)
+            elif k == "union":
+                for b in node["branches"]:
+                    strip_uuid(b, seen)
         visit(ir)
 
     def _uuid_next_to_enum(self, node, table, seen=None):
@@ -179,11 +202,80 @@ class C20(Check):
             ks = [M.deref(b, table) for b in node["branches"]]
             if any(b.get("logical", {}).get("type") == "uuid" for b in ks) and any(b["k"] == "enum" for b in ks):
                 return True
+            # the same defect one level down: a branch holding uuid strings (array / map of them) next to a branch whose
+            # values also conform to it (a record is a string-valued mapping when its fields are enums or strings)
+            if sum(1 for b in ks if b["k"] != "null") >= 2 and any(self._has_uuid(b, table, set()) for b in node["branches"]):
+                return True
             return any(self._uuid_next_to_enum(b, table, seen) for b in node["branches"])
         return False
 
+    def _has_uuid(self, node, table, seen):
+        if node.get("logical", {}).get("type") == "uuid":
+            return True
+        k = node["k"]
+        if k == "ref":
+            if node["name"] in seen or node["name"] not in table:
+                return False
+            seen.add(node["name"])
+            return self._has_uuid(table[node["name"]], table, seen)
+        if k == "record":
+            return any(self._has_uuid(f["type"], table, seen) for f in node["fields"])
+        if k == "array":
+            return self._has_uuid(node["items"], table, seen)
+        if k == "map":
+            return self._has_uuid(node["values"], table, seen)
+        if k == "union":
+            return any(self._has_uuid(b, table, seen) for b in node["branches"])
+        return False
+
+    def _offspring_radius(self, ir, table):
+        """gen_data is a branching process: a union picks a branch uniformly, arrays and maps produce 10 children.  Returns
+        the spectral radius of the mean-offspring matrix over the record types (>= 1: generation does not terminate with
+        positive probability, in practice RecursionError)."""
+        recs = [n for n, t in table.items() if t["k"] == "record"]
+        if not recs:
+            return 0.0
+        idx = {n: i for i, n in enumerate(recs)}
+
+        def expect(node, weight, row, depth=0):
+            k = node["k"]
+            if k == "ref":
+                t = table.get(node["name"])
+                if t is not None and t["k"] == "record":
+                    row[idx[node["name"]]] += weight
+                return
+            if k == "record":
+                # an inline definition: one instance of that record
+                row[idx[node["name"]]] += weight
+                return
+            if k == "array":
+                expect(node["items"], weight * 10, row, depth + 1)
+            elif k == "map":
+                expect(node["values"], weight * 10, row, depth + 1)
+            elif k == "union":
+                for b in node["branches"]:
+                    expect(b, weight / len(node["branches"]), row, depth + 1)
+
+        m = []
+        for n in recs:
+            row = [0.0] * len(recs)
+            for f in table[n]["fields"]:
+                expect(f["type"], 1.0, row)
+            m.append(row)
+        v = [1.0] * len(recs)
+        rad = 0.0
+        for _ in range(60):
+            w = [sum(m[i][j] * v[j] for j in range(len(recs))) for i in range(len(recs))]
+            rad = max(w) if w else 0.0
+            if rad == 0:
+                return 0.0
+            v = [x / rad for x in w]
+        return rad
+
     def _supercritical(self, ir, table):
-        """Is some recursive reference reached through an array or map?"""
+        """Does generation fail to terminate with positive probability (mean offspring of the recursion >= ~1)?"""
+        if self._offspring_radius(ir, table) >= 0.9:
+            return True
         found = []
 
         def visit(node, path, via):
